@@ -818,6 +818,20 @@ class Evaluator:
 
     def assign(self, t, v, fr: Frame, st):
         if isinstance(t, ast.Name):
+            old = fr.env.get(t.id)
+            if old is not None and old is not v and isinstance(old, (Str, Phi)):
+                # a rendered text bound to a local and overwritten before anything used it: the render ran for nothing
+                olds = slots_in(old)
+                if olds:
+                    keep = {sp.idx for sp in slots_in(v)}
+                    for k_, w_ in fr.env.items():
+                        if k_ != t.id and w_ is not old:
+                            keep |= {sp.idx for sp in slots_in(w_)}
+                    for _c, dv in fr.done:
+                        keep |= {sp.idx for sp in slots_in(dv)}
+                    for sp in olds:
+                        if sp.idx not in keep:
+                            self.eager.append((sp, f"value of the local `{t.id}`, overwritten before it is used", self.src(fr, st)))
             fr.env[t.id] = v
         elif isinstance(t, (ast.Tuple, ast.List)):
             for i, e in enumerate(t.elts):
@@ -846,9 +860,12 @@ class Evaluator:
         env0 = dict(fr.env)
         lc0 = list(fr.live_cond)
         fr.live_cond = lc0 + [cond]
+        ref_then, ref_else = self._none_refinement(st.test, fr)
+        fr.env.update(ref_then)
         self.exec_block(st.body, fr)
         live_a, env_a = fr.live, fr.env
         fr.env, fr.live = dict(env0), True
+        fr.env.update(ref_else)
         fr.live_cond = lc0 + [negate(cond)]
         self.exec_block(st.orelse, fr)
         live_b, env_b = fr.live, fr.env
@@ -865,6 +882,36 @@ class Evaluator:
         else:
             fr.live = False
             fr.live_cond = lc0
+
+    def _none_refinement(self, test, fr: Frame):
+        """`if x is None:` / `if (x := e) is None:` / `if not x:` on a local whose value is `A or None` by construction:
+        inside the branches the local is the None / the non-None alternative (path sensitivity for the commonest idiom)"""
+        neg = False
+        t = test
+        if isinstance(t, ast.UnaryOp) and isinstance(t.op, ast.Not):
+            neg, t = True, t.operand
+        name = None
+        is_none_test = None
+        if isinstance(t, ast.Compare) and len(t.ops) == 1 and isinstance(t.comparators[0], ast.Constant) and t.comparators[0].value is None:
+            l_ = t.left.target if isinstance(t.left, ast.NamedExpr) else t.left
+            if isinstance(l_, ast.Name) and isinstance(t.ops[0], (ast.Is, ast.IsNot)):
+                name, is_none_test = l_.id, isinstance(t.ops[0], ast.Is)
+        elif isinstance(t, ast.Name):
+            name, is_none_test = t.id, False      # `if x:` -> then-branch: not None
+        if name is None or name not in fr.env:
+            return {}, {}
+        v = fr.env[name]
+        if not isinstance(v, Phi):
+            return {}, {}
+        a_none = isinstance(v.a, Const) and v.a.value is None
+        b_none = isinstance(v.b, Const) and v.b.value is None
+        if a_none == b_none:
+            return {}, {}
+        none_v, other = (v.a, v.b) if a_none else (v.b, v.a)
+        if isinstance(t, ast.Name) and not isinstance(other, (Str, Obj)):
+            return {}, {}          # truthiness only separates None from text / objects
+        then_is_none = is_none_test != neg
+        return ({name: none_v}, {name: other}) if then_is_none else ({name: other}, {name: none_v})
 
     def _rejoin_continues(self, fr: Frame, nc: int, lc_it: list) -> None:
         """paths that left the loop body through `continue` meet the path that reached its end"""
@@ -946,6 +993,11 @@ class Evaluator:
         fr.live = True
         fr.live_cond = lc0
         after = fr.env
+        # a rendering context bound before the loop and rebound inside it: every later iteration sees the rebound one
+        for name in stores:
+            b_, a_ = before.get(name), after.get(name)
+            if isinstance(b_, CtxV) and a_ is not None and a_ is not b_ and a_ != b_:
+                self.notes.append(("ctx-loop-carried", self.src(fr, st), name))
         newenv = dict(before)
         for name in stores:
             val = after.get(name)
